@@ -394,3 +394,58 @@ Section Proofs.
   Qed.
 
 End Proofs.
+
+(* ---------------------------------------------------------------- the diagnostics are exact *)
+(* [table_gaps] (used by the failing-input search to name the broken (kind, field) pairs) is
+   empty exactly when [table_complete] holds. *)
+
+Lemma filter_negb_nil : forall A (p : A -> bool) l, filter (fun x => negb (p x)) l = [] <-> forallb p l = true.
+Proof.
+  intros A p l. induction l as [|x l IH]; simpl.
+  - split; reflexivity.
+  - destruct (p x); simpl.
+    + exact IH.
+    + split; discriminate.
+Qed.
+
+Lemma map_nil_iff : forall A B (f : A -> B) l, map f l = [] <-> l = [].
+Proof. intros A B f l. destruct l; simpl; split; intro H; try reflexivity; discriminate. Qed.
+
+Lemma app_nil_iff : forall A (a b : list A), a ++ b = [] <-> a = [] /\ b = [].
+Proof.
+  intros A a b. split.
+  - apply app_eq_nil.
+  - intros [Ha Hb]. subst. reflexivity.
+Qed.
+
+Lemma flat_map_nil_iff : forall A B (f : A -> list B) (p : A -> bool) l,
+  (forall x, f x = [] <-> p x = true) -> (flat_map f l = [] <-> forallb p l = true).
+Proof.
+  intros A B f p l Hfp. induction l as [|x l IH]; simpl.
+  - split; reflexivity.
+  - rewrite app_nil_iff, andb_true_iff, IH, Hfp. reflexivity.
+Qed.
+
+Lemma kind_gaps_nil_iff : forall aliases d, kind_gaps aliases d = [] <-> kind_ok aliases d = true.
+Proof.
+  intros aliases d. unfold kind_gaps, kind_ok.
+  repeat rewrite app_nil_iff. repeat rewrite map_nil_iff. repeat rewrite filter_negb_nil.
+  repeat rewrite andb_true_iff.
+  assert (H1 : k_unsupported d = [] <-> match k_unsupported d with [] => true | _ :: _ => false end = true).
+  { destruct (k_unsupported d); split; intro H; try reflexivity; discriminate. }
+  assert (H2 : (if symbol_method_ok d then [] else [(k_name d, "Symbol"%name, "symbol-method-not-understood"%name)]) = []
+               <-> symbol_method_ok d = true).
+  { destruct (symbol_method_ok d); split; intro H; try reflexivity; discriminate. }
+  rewrite H1, H2. tauto.
+Qed.
+
+Theorem table_gaps_nil_iff_lemma : forall tbl aliases, table_gaps tbl aliases = [] <-> table_complete tbl aliases = true.
+Proof.
+  intros tbl aliases. unfold table_gaps, table_complete.
+  repeat rewrite app_nil_iff. rewrite map_nil_iff, filter_negb_nil. repeat rewrite andb_true_iff.
+  rewrite (flat_map_nil_iff _ _ (kind_gaps aliases) (kind_ok aliases) tbl (kind_gaps_nil_iff aliases)).
+  assert (H : (if nodup_names (map k_name tbl) then [] else [("*"%name, "*"%name, "duplicate-kind-names"%name)]) = []
+              <-> nodup_names (map k_name tbl) = true).
+  { destruct (nodup_names (map k_name tbl)); split; intro H; try reflexivity; discriminate. }
+  rewrite H. tauto.
+Qed.
